@@ -65,7 +65,9 @@ def malformed(rng):
     elif k < 0.7: b = b.replace(b': ', rng.choice([b':', b' : ', b':  ']), 1)
     elif k < 0.78:          # a header line whose name is not a token: empty, with a blank, folded, holding a line end, `Name:value` in front of a good line, not ASCII
         bad = rng.choice([b': v', b'A B: v', b' folded: v', b'\tX: v', b'Foo\r\nX-A: 1', b'Host:example.com\r\nX-A: 1', b'Foo\r\nContent-Length: 3', b'X-Caf\xc3\xa9: au lait', b'(x): v', b'X"Y: v', b'X\x00: v',
-                          b'X-A\r\n: v', b'\r: v', b'a@b: v', b'x/y: 1'])
+                          b'X-A\r\n: v', b'\r: v', b'a@b: v', b'x/y: 1',
+                          # a control byte in a field VALUE (NUL, bare LF, ESC, DEL, ...): invalid and dangerous (RFC 9110 5.5)
+                          b'X-A: a\x00b', b'X-A: a\nInjected: 1', b'X-A: \x1b[31m', b'X-A: a\x7f', b'Host: h\x0bx', b'Cookie: a=1\n', b'X-A: \x01'])
         b = bytearray(b'POST /x HTTP/1.1\r\nHost: h\r\n' + bad + b'\r\nContent-Length: 3\r\n\r\nabc')
     elif k < 0.85:
         cl = rng.choice([b'abc', b'', b'-1', b'99999999999999999999999', b'4294967296', b'4294967295', b'+3', b' 3', b'3 ', b'18446744073709551616', b'3, 3', b'0x3'])
@@ -124,7 +126,7 @@ def generate(rng, tier):
 
 # ---------------------------------------------------------------------------------------------- spec
 HEAD_RE = re.compile(rb'\A(GET|PUT|POST|PATCH|DELETE|HEAD|OPTIONS) (/[^ ?]*)(?:\?([^ ]*))? HTTP/1\.1\r\n', re.S)
-LINE_RE = re.compile(rb"([!#$%&'*+\-.^_`|~0-9A-Za-z]+): ([^\r]*)\r\n", re.S)          # field-name = token (RFC 9110 5.1)
+LINE_RE = re.compile(rb"([!#$%&'*+\-.^_`|~0-9A-Za-z]+): ([\t\x20-\x7e\x80-\xff]*)\r\n", re.S)          # field-name = token (RFC 9110 5.1); field-value: HTAB, SP, VCHAR, obs-text — no NUL, no bare LF, no other control byte (5.5)
 _STD = None
 
 
